@@ -513,7 +513,8 @@ pub fn gen(tier: &str, rng: &mut Rng, emit: &mut dyn FnMut(String)) {
     for l in [
         // D16: Paris 2024-03-31, 02:30-02:45
         "tz.iter Europe/Paris Asia/Tokyo 738975:0 738977:0 - 02:30-02:45",
-        // state in the last minute before the clock is set back (Paris 2024-10-27 00:59:30Z)
+        // state in the last minute before the clock is set back (Paris 2024-10-27 00:59:30Z): was `closed`
+        // for every expression before /repo b0d5731
         "tz.state Europe/Paris Asia/Tokyo 739186:3570000000000 - 24/7",
         // bounds going backwards in a gap that does not end on a whole minute (Monrovia 1972)
         "tz.iter Africa/Monrovia UTC 719898:82800000000000 719899:2685000000000 - 00:00-00:10",
